@@ -17,6 +17,9 @@
 //!   C11  a public key derived from an honest private-key replica (generated or reloaded)
 //!        serialises to the reference bytes and decides like the reference on every delivered
 //!        tuple (valid and faulted);
+//!   C06  an intact tuple is rejected when the channel misroutes it (another mode's or pre-hash
+//!        function's endpoint), re-frames it (context || message split elsewhere) or presents the
+//!        formatted pre-hash input to the pure endpoint;
 //!   C13  no operation panics — in particular none on artefacts loaded from a faulted store or
 //!        delivered through a faulted channel (checked flavour: self-checks and overflow checks on).
 
@@ -106,6 +109,13 @@ pub enum Op {
     Deliver { t: usize, fault: Option<(u8, Fault)> },
     SkToBytes { src: usize },
     PkToBytes { src: usize },
+    /// misrouting: the intact tuple reaches the verifier endpoint of another mode / pre-hash function
+    DeliverAs { t: usize, mode: Mode },
+    /// framing fault: the concatenation ctx || msg arrives split at another boundary
+    DeliverReframed { t: usize, split: usize },
+    /// cross-protocol delivery: the formatted pre-hash input OID || PH(M) of a HashML-DSA tuple
+    /// reaches the pure ML-DSA endpoint as if it were the message
+    DeliverCross { t: usize },
 }
 
 impl Op {
@@ -121,6 +131,9 @@ impl Op {
             Op::Deliver { .. } => "deliver",
             Op::SkToBytes { .. } => "sk_to_bytes",
             Op::PkToBytes { .. } => "pk_to_bytes",
+            Op::DeliverAs { .. } => "deliver_as_other_mode",
+            Op::DeliverReframed { .. } => "deliver_reframed",
+            Op::DeliverCross { .. } => "deliver_cross_protocol",
         }
     }
     fn to_json(&self) -> Value {
@@ -136,6 +149,9 @@ impl Op {
             Op::Deliver { t, fault } => json!({"op":"deliver","tuple":t,"artefact":fault.as_ref().map(|(a, _)| *a),"fault":fault.as_ref().map(|(_, f)| f.to_json()).unwrap_or(Value::Null)}),
             Op::SkToBytes { src } => json!({"op":"sk_to_bytes","src":src}),
             Op::PkToBytes { src } => json!({"op":"pk_to_bytes","src":src}),
+            Op::DeliverAs { t, mode } => json!({"op":"deliver_as_other_mode","tuple":t,"mode":mode.name()}),
+            Op::DeliverReframed { t, split } => json!({"op":"deliver_reframed","tuple":t,"split":split}),
+            Op::DeliverCross { t } => json!({"op":"deliver_cross_protocol","tuple":t}),
         }
     }
     fn from_json(v: &Value) -> Option<Op> {
@@ -152,6 +168,9 @@ impl Op {
             "deliver" => Op::Deliver { t: u("tuple")?, fault: match fault()? { None => None, Some(f) => Some((v["artefact"].as_u64()? as u8, f)) } },
             "sk_to_bytes" => Op::SkToBytes { src: u("src")? },
             "pk_to_bytes" => Op::PkToBytes { src: u("src")? },
+            "deliver_as_other_mode" => Op::DeliverAs { t: u("tuple")?, mode: Mode::from_name(v["mode"].as_str()?)? },
+            "deliver_reframed" => Op::DeliverReframed { t: u("tuple")?, split: u("split")? },
+            "deliver_cross_protocol" => Op::DeliverCross { t: u("tuple")? },
             _ => return None,
         })
     }
@@ -436,6 +455,52 @@ pub fn execute(set: &dyn DynSet, xi: &[u8; 32], xi_other: &[u8; 32], ops: &[Op],
                 let s = &sks[src % sks.len()];
                 let _ = guard!(i, "PrivateKey::into_bytes", s.obj.to_bytes());
             }
+            Op::DeliverAs { .. } | Op::DeliverReframed { .. } | Op::DeliverCross { .. } => {
+                if tuples.is_empty() {
+                    continue;
+                }
+                let (t, what): (usize, &str) = match op {
+                    Op::DeliverAs { t, .. } => (*t, "another mode's endpoint"),
+                    Op::DeliverReframed { t, .. } => (*t, "another ctx/message boundary"),
+                    Op::DeliverCross { t } => (*t, "the pure endpoint with the formatted pre-hash input as message"),
+                    _ => unreachable!(),
+                };
+                let tu = &tuples[t % tuples.len()];
+                let (mut msg, mut ctx, mut mode) = (tu.msg.clone(), tu.ctx.clone(), tu.mode);
+                match op {
+                    Op::DeliverAs { mode: m2, .. } => {
+                        if *m2 == tu.mode {
+                            continue;
+                        }
+                        mode = *m2;
+                    }
+                    Op::DeliverReframed { split, .. } => {
+                        let mut cat = tu.ctx.clone();
+                        cat.extend_from_slice(&tu.msg);
+                        let k = split % (cat.len().min(255) + 1);
+                        if k == tu.ctx.len() {
+                            continue;
+                        }
+                        ctx = cat[..k].to_vec();
+                        msg = cat[k..].to_vec();
+                    }
+                    Op::DeliverCross { .. } => {
+                        let Some(fm) = formatted_prehash(tu.mode, &tu.msg) else { continue };
+                        msg = fm;
+                        mode = Mode::Pure;
+                    }
+                    _ => unreachable!(),
+                }
+                bump(&mut st.faults_fired, &format!("channel/{}", op.name()));
+                for p in pks.iter() {
+                    st.verifies += 1;
+                    let Some(dec) = guard!(i, "verify", p.obj.verify(&msg, &tu.sig, &ctx, mode)) else { continue };
+                    st.sigs.insert(format!("{}|{}|{}->{}|{}|{}", info.name, op.name(), tu.mode.name(), mode.name(), if p.honest { "honest" } else { "tainted" }, dec));
+                    if p.honest && tu.honest && dec {
+                        finds.push(Finding { prop: "C06", invariant: format!("accepted:{}", op.name()), at_op: i, observed: format!("a {} signature for a {}-byte message and {}-byte context was accepted when delivered to {what} (as {}, message {} bytes, context {} bytes) by replica `{}`", tu.mode.name(), tu.msg.len(), tu.ctx.len(), mode.name(), msg.len(), ctx.len(), p.prov), expected: "verification returns false".into() });
+                    }
+                }
+            }
             Op::PkToBytes { src } => {
                 let s = &pks[src % pks.len()];
                 let (honest, derived, prov) = (s.honest, s.derived, s.prov.clone());
@@ -454,6 +519,35 @@ pub fn execute(set: &dyn DynSet, xi: &[u8; 32], xi_other: &[u8; 32], ops: &[Op],
         }
     }
     Ok(finds)
+}
+
+/// OID || PH(M) as FIPS 204 Algorithm 4 formats it (the channel needs it to model a tuple that is
+/// delivered to the wrong protocol endpoint; nothing of the library is replaced by this).
+fn formatted_prehash(mode: Mode, m: &[u8]) -> Option<Vec<u8>> {
+    use sha3::digest::{ExtendableOutput, Update, XofReader};
+    let mut v = vec![0x06u8, 0x09, 0x60, 0x86, 0x48, 0x01, 0x65, 0x03, 0x04, 0x02];
+    match mode {
+        Mode::Pure => return None,
+        Mode::Sha256 => {
+            use sha2::Digest;
+            v.push(0x01);
+            v.extend_from_slice(&sha2::Sha256::digest(m));
+        }
+        Mode::Sha512 => {
+            use sha2::Digest;
+            v.push(0x03);
+            v.extend_from_slice(&sha2::Sha512::digest(m));
+        }
+        Mode::Shake128 => {
+            v.push(0x0B);
+            let mut h = sha3::Shake128::default();
+            h.update(m);
+            let mut out = [0u8; 32];
+            h.finalize_xof().read(&mut out);
+            v.extend_from_slice(&out);
+        }
+    }
+    Some(v)
 }
 
 fn len_class(n: usize) -> &'static str {
@@ -538,6 +632,14 @@ pub fn gen_history(p: &mut Prng, set: &dyn DynSet) -> Vec<Op> {
             Op::PkToBytes { src: p.usize_below(8) }
         };
         ops.push(op);
+        // misrouting and framing faults of the channel (every run: they cost one verification each)
+        let op = match p.below(12) {
+            0 => Op::DeliverAs { t: p.usize_below(8), mode: *p.pick(&MODES) },
+            1 => Op::DeliverReframed { t: p.usize_below(8), split: if p.chance(1, 2) { p.usize_below(256) } else { p.usize_below(4) } },
+            2 => Op::DeliverCross { t: p.usize_below(8) },
+            _ => continue,
+        };
+        ops.push(op);
     }
     // close the history with deliveries to whatever replicas exist at the end
     ops.push(Op::Deliver { t: p.usize_below(8), fault: None });
@@ -567,11 +669,12 @@ pub fn run(ctx: &Ctx) -> i32 {
         Some("C09") => "C09",
         Some("C11") => "C11",
         Some("C13") => "C13",
-        _ => harness_error("world: --prop C01|C09|C11|C13 required"),
+        Some("C06") => "C06",
+        _ => harness_error("world: --prop C01|C06|C09|C11|C13 required"),
     };
     let all = sets::sets();
     let n: u64 = match ctx.tier {
-        Tier::Quick => ctx.scaled(8000),
+        Tier::Quick => ctx.scaled(5000),
         Tier::Thorough => ctx.scaled(if ctx.flavour == "checked" { 60_000 } else { 120_000 }),
     };
     let outs = run_indexed(n as usize, ctx.workers, |i| {
@@ -652,6 +755,7 @@ pub fn run(ctx: &Ctx) -> i32 {
     let oracle = match prop {
         "C01" => "an intact tuple signed by an honest private-key replica verifies under every honest public-key replica, whatever the provenance chain of either (generated, reloaded after restart any number of times, cloned, derived)",
         "C09" => "every artefact loaded from the store (intact or faulted) serialises back to the bytes it was loaded from; public keys always load; an honest reloaded private key signs byte-identically to the never-restarted reference for the same randomness; an honest reloaded public key decides like the reference on every delivered tuple, valid or faulted",
+        "C06" => "an intact tuple is rejected by every honest public-key replica when it is misrouted to the endpoint of another mode or pre-hash function, when the concatenation context||message arrives split at any other boundary, and when the formatted pre-hash input OID||PH(M) of a HashML-DSA tuple is presented to the pure ML-DSA endpoint as the message",
         "C11" => "a public key derived from an honest private-key replica (generated or reloaded) serialises to the generated key's bytes and decides like the generated reference on every delivered tuple, valid or faulted",
         _ => "no operation of any history panics, including every operation on private/public keys loaded from a faulted store and on tuples delivered through a faulted channel (checked flavour: library self-checks and integer-overflow checks armed)",
     };
